@@ -99,8 +99,12 @@ func GenMVal(ctrl, floats bool, depth int) *rapid.Generator[MVal] {
 		case 1:
 			// integers that a float64 holds exactly (what a JSON file load yields)
 			v := rapid.Int64Range(-(1<<53)+1, (1<<53)-1).Draw(t, "i")
-			if rapid.Bool().Draw(t, "small") {
+			switch rapid.IntRange(0, 3).Draw(t, "small") {
+			case 0, 1:
 				v = v % 1000
+			case 2:
+				// integers that need more than 53 bits (other implementations handle them exactly)
+				v = rapid.SampledFrom([]int64{9007199254740993, -9007199254740993, 9223372036854775807, -9223372036854775808, 1234567890123456789, 9007199254740992, 18014398509481985}).Draw(t, "big")
 			}
 			return MVal{K: "i", I: v}
 		case 2:
